@@ -81,6 +81,16 @@ func (x *Exec) call(fr *frame, st *State, c *ssa.CallCommon, pos token.Pos, inst
 		}
 		return x.callStatic(fr, st, cv.Clo.Fn, args, cv.Clo.Bindings, pos)
 	}
+	if u, ok := c.Value.(*ssa.UnOp); ok && u.Op == token.MUL {
+		// a call through a package-level function variable (log.Panicf = logger.Panicf, ...): the
+		// extern categories name such variables like functions
+		if g, ok := u.X.(*ssa.Global); ok && g.Pkg != nil {
+			full := g.Pkg.Pkg.Path() + "." + g.Name()
+			if cat, ok := x.eng.externCat(full); ok {
+				return x.applyExtern(fr, st, cat, full, sig, args, pos)
+			}
+		}
+	}
 	fv, err := x.val(st, c.Value)
 	if err != nil {
 		return Val{}, err
@@ -454,6 +464,11 @@ func (x *Exec) applyContract(fr *frame, st *State, fc *FuncContract, sig *types.
 	}
 	penv := &SpecEnv{x: x, st: st, old: pre, vars: post, inCall: true, pkg: env.pkg, pol: 1}
 	for _, e := range fc.Ensures {
+		// a clause tagged [bv:...] / [int:...] of a trusted contract speaks only to callers verified in
+		// that arithmetic (its spec functions exist in that mode only)
+		if (strings.HasPrefix(e.Tag, "bv:") && vc.ar.Mode != ModeBV) || (strings.HasPrefix(e.Tag, "int:") && vc.ar.Mode != ModeInt) {
+			continue
+		}
 		t, err := x.evalBool(e.Expr, penv)
 		if err != nil {
 			return Val{}, fmt.Errorf("%s:%d: ensures of %s at call site: %w", e.File, e.Line, short, err)
